@@ -36,15 +36,27 @@ def all_tasks_inside(t):
     return out
 
 
-def alarms(spec, real, protos):
-    """monitors of one constructor call; returns list of strings"""
+_LAB = []
+
+
+def null_lab():
+    """a serial lab without storage (nothing is cached whatever the task type's cache is)"""
+    if not _LAB:
+        import labtech
+        _LAB.append(labtech.Lab(storage=None, runner_backend='serial'))
+    return _LAB[0]
+
+
+def alarms(spec, real, protos, full=False):
+    """monitors of one constructor call; returns list of strings (`full`: also the run_tasks monitor, which
+    the generated stream applies to a fifth of the calls)"""
     try:
-        return _alarms(spec, real, protos)
+        return _alarms(spec, real, protos, full)
     except Exception as e:
         return [f'exercising the constructed task (==, hash, set/dict use, pickling) raised {type(e).__name__}: {e}'[:200]]
 
 
-def _alarms(spec, real, protos):
+def _alarms(spec, real, protos, full):
     from labtech.exceptions import TaskError
     from labtech.tasks import get_direct_dependencies, find_tasks_in_param
     from labtech.types import ResultMeta
@@ -91,6 +103,31 @@ def _alarms(spec, real, protos):
             out.append('equal tasks have different hashes')
         if len({t, u}) != 1 or {t: 1}.get(u) != 1:
             out.append('equal tasks are not interchangeable as set/dict keys')
+    # parameters that are == in Python but spelled differently for JSON (and get another cache key): dict items
+    # in another insertion order at any depth; numerically equal scalars of another type; mixin enum member vs value
+    rl = random.Random(len(real['nf']) + 1)
+    alts = []
+    for order_only in (True, False, False):
+        alt = pr.pyeq_respell(spec, rl, order_only=order_only)
+        if alt != spec and alt not in [a for a, _ in alts]:
+            alts.append((alt, order_only))
+    for alt, order_only in alts:
+        u = pg.build(alt)
+        if not (u == t and t == u):
+            if order_only:
+                out.append('tasks whose dict parameters differ only in key insertion order are not equal')
+            continue   # whether 1 == True == 1.0 makes tasks equal is Python's business; only the consequences of == are checked
+        if hash(u) != h:
+            out.append('tasks that are == (parameters equal up to dict key order / numeric type) have different hashes')
+        if len({t, u}) != 1 or {t: 1}.get(u) != 1 or {u: 1}.get(t) != 1:
+            out.append('tasks that are == are not interchangeable as set members / dict keys')
+        if full or len(real['nf']) % 5 == 0:
+            res = null_lab().run_tasks([t, u], disable_progress=True, disable_top=True)
+            if len(res) != 1 or t not in res or u not in res:
+                out.append(f'run_tasks([a, b]) with a == b returned {len(res)} entries / not reachable through both')
+            res = null_lab().run_tasks([t], disable_progress=True, disable_top=True)
+            if u not in res:
+                out.append('the result of run_tasks([a]) is not found under b although a == b')
     om = OTHER_TYPE.get((spec[1], spec[2]))
     if om and pg.TASK_TYPES[om] == [f for f, _ in spec[3]]:
         v = pg.build(['task', om[0], om[1], spec[3]])
@@ -150,7 +187,7 @@ def _alarms(spec, real, protos):
 def run_one(spec, protos):
     real = pr.observe(spec)
     m = pr.parse_model(pr.model_lines([spec])[0])
-    return real, m, alarms(spec, real, protos), pr.compare(spec, real, m)
+    return real, m, alarms(spec, real, protos, full=True), pr.compare(spec, real, m)
 
 
 def run(ctx):
@@ -230,7 +267,7 @@ def run(ctx):
         want = v['what'][:30]
 
         def still(c, want=want):
-            return any(a.startswith(want) for a in alarms(c, pr.observe(c), protos))
+            return any(a.startswith(want) for a in alarms(c, pr.observe(c), protos, full=True))
         v['replay'] = dict(kind='tree', spec=pg.shrink(v['replay']['spec'], still))
         shrunk.append(v)
     viol = shrunk + [v for v in viol if v not in shrunk]
